@@ -6,7 +6,7 @@
 . /verif/env.sh
 w=$(mktemp -d /tmp/rv-combo.XXXXXX); trap 'rm -rf "$w"' EXIT
 rsync -a --exclude .git /repo/ "$w/r/"
-( cd "$w/r" && patch -p1 -s < /verif/selftest/keepall/$1.diff ) || exit 2
+src=/verif/selftest/keepall/$1.diff; [ -f "$1" ] && src=$(realpath "$1"); ( cd "$w/r" && patch -p1 -s < "$src" ) || exit 2
 ( cd "$w/r" && python3 "$3" && gofmt -l cache config proxy utils webserver && go build ./cache/... ./config/... ./proxy/... ./utils/... ) || { echo "edit/build failed"; exit 2; }
 ( cd "$w" && diff -ruN --exclude=.git /repo r | grep -v "^Only in\|^diff " | sed 's#^--- /repo/#--- a/#; s#^+++ r/#+++ b/#' ) > "$2"
 echo "$2: $(grep -c '^[+-][^+-]' "$2") changed lines"
